@@ -27,7 +27,7 @@ KAT_FILES = {
 }
 
 
-def kats(alg, repo="/repo"):
+def kats(alg, repo=os.environ.get("VERIF_REPO", "/repo")):
     return read_blobby(os.path.join(repo, KAT_FILES[alg]))
 
 
